@@ -33,7 +33,7 @@ def profiles(tier):
             ("MCGenTrap", {"MAXSTMTS": 3 if q else 4, "MAXDEPTH": 2, "EVENTS": 0, "TRAPVAR": "0"}),
             ("MCGenTrap", {"MAXSTMTS": 3, "MAXDEPTH": 3, "EVENTS": 0, "TRAPVAR": "1"}),
             ("MCGenDeadDef", {"MAXSTMTS": 5, "MAXDEPTH": 3, "EVENTS": 0}),
-            ("MCGenScope", {"MAXSTMTS": 4 if q else 5, "MAXDEPTH": 3, "EVENTS": 0})]
+            ("MCGenScope", {"MAXSTMTS": 4, "MAXDEPTH": 3 if q else 4, "EVENTS": 0})]
 
 
 def run(tier):
